@@ -415,4 +415,69 @@ example : F5Prog exF5 := by decide
 example : ¬ F4Prog exF5 := by decide
 example : compiles exF5 = true := by decide
 
+/-- the op lists `compile` returns -/
+def compiledOps (p : Program) : Option (List (List Comp.Op)) :=
+  match compile p with
+  | .ok r => some r.ops
+  | .error _ => none
+
+/-- `macro d($x, $x) { a($x); }  def 0 { ~d(1, 2); }` -/
+def dupVarProg : Program :=
+  ⟨[⟨"d", ["x", "x"], .cons (.op "a" [.const "x"]) .nil⟩], ["d"], [⟨some 0, "r", none, .cons (.macroCall "d" [.int 1, .int 2]) .nil⟩]⟩
+
+theorem dupVar_graph : (toSrc dupVarProg).graph = ⟨#[.halt evReturn, .emit ⟨"a", [.int 1]⟩ 0], [some 1]⟩ := by
+  have h1 : (toSrc dupVarProg).routines = [⟨some (.cons (.macroCall "d" [.int 1, .int 2]) .nil)⟩] := rfl
+  have h2 : (toSrc dupVarProg).macros = [⟨"d", ["x", "x"], .cons (.op "a" [.const "x"]) .nil⟩] := rfl
+  simp only [Src.Program.graph, h1, h2, Src.allRoutineLabels, Src.labelsOfStmts, Src.labelsOf, List.flatMap_cons, List.flatMap_nil,
+    List.append_nil, Src.allocLabels, List.foldl_nil, List.foldl_cons, List.length_cons, List.length_nil]
+  simp only [Src.trStmts, Src.tr, Src.B.push, Src.substEv, List.find?, Src.allocLabels, Src.labelsOfStmts,
+    Src.labelsOf, List.foldl_nil, List.append_nil, beq_self_eq_true, List.length_cons, List.length_nil, Nat.reduceAdd, Nat.lt_irrefl,
+    ↓reduceIte, Src.substParam, List.map_cons, List.map_nil, List.zip_cons_cons, List.lookup_cons, List.nil_append]
+  rfl
+
+/-- **The conjunct "the variables of a macro are distinct" of `F5Prog` is needed.**  `macro d($x, $x) { a($x); }` called as
+`~d(1, 2)`: `build` looks the variable up in `dict(zip(variables, args))`, where the last value of a repeated key stays: the compiled
+code performs `a(2)` (the real compiler gives the same op list); the language semantics (`Src.tr`: the first binding of a name
+counts) says `a(1)`. -/
+theorem duplicate_macro_variable_counterexample :
+    ¬ F5Prog dupVarProg ∧ compiledOps dupVarProg = some [[⟨1, "a", [.int 2]⟩]] ∧
+    (run (Machine.lts ⟨flatten (conv [[⟨1, "a", [.int 2]⟩]])⟩) (fun _ => true) 6 0
+      (Machine.entry ⟨flatten (conv [[⟨1, "a", [.int 2]⟩]])⟩ 0)).1 = [.op ⟨"a", [.int 2]⟩, .stop evReturn] ∧
+    (toSrc dupVarProg).graph.entries = [some 1] ∧
+    (run (toSrc dupVarProg).graph.lts (fun _ => true) 6 0 (1 : Nat)).1 = [.op ⟨"a", [.int 1]⟩, .stop evReturn] := by
+  rw [dupVar_graph]
+  decide +kernel
+
+/-- `macro d() { Return(); c(); }  def 0 { ~d(); e(); }` : an operation written with the name `Return` -/
+def retOpProg : Program :=
+  ⟨[⟨"d", [], .cons (.op "Return" []) (.cons (.op "c" []) .nil)⟩], ["d"],
+   [⟨some 0, "r", none, .cons (.macroCall "d" []) (.cons (.op "e" []) .nil)⟩]⟩
+
+theorem retOp_graph : (toSrc retOpProg).graph =
+    ⟨#[.halt evReturn, .emit ⟨"e", []⟩ 0, .emit ⟨"c", []⟩ 1, .halt ⟨"Return", []⟩], [some 3]⟩ := by
+  have h1 : (toSrc retOpProg).routines = [⟨some (.cons (.macroCall "d" []) (.cons (.op "e" []) .nil))⟩] := rfl
+  have h2 : (toSrc retOpProg).macros = [⟨"d", [], .cons (.op "Return" []) (.cons (.op "c" []) .nil)⟩] := rfl
+  have e1 : Beh.endsFlow "Return" = true := by decide
+  have e2 : Beh.endsFlow "c" = false := by decide
+  have e3 : Beh.endsFlow "e" = false := by decide
+  simp only [Src.Program.graph, h1, h2, Src.allRoutineLabels, Src.labelsOfStmts, Src.labelsOf, List.flatMap_cons, List.flatMap_nil,
+    List.append_nil, Src.allocLabels, List.foldl_nil, List.foldl_cons, List.length_cons, List.length_nil]
+  simp only [Src.trStmts, Src.tr, Src.B.push, Src.substEv, List.find?, Src.allocLabels, Src.labelsOfStmts,
+    Src.labelsOf, List.foldl_nil, List.append_nil, beq_self_eq_true, List.length_cons, List.length_nil, Nat.reduceAdd, Nat.lt_irrefl,
+    ↓reduceIte, Src.substParam, List.map_cons, List.map_nil, List.zip_nil_left, List.nil_append, e1, e2, e3, Bool.false_eq_true]
+  rfl
+
+/-- **No operation named `Return` (`cgSimple`) is needed in F5.**  Inside a macro `build` turns every op named `Return` into a jump
+to the end label of the expansion, whether it was written as `return;` or as an operation `Return();`: the compiled code goes
+on with `e()` behind the call (the real compiler gives the same op list); in the language semantics only the statement
+`return;` leaves the macro, the operation `Return()` ends the routine. -/
+theorem return_op_in_macro_counterexample :
+    ¬ F5Prog retOpProg ∧ compiledOps retOpProg = some [[⟨1, "Jump", [.int 3]⟩, ⟨2, "c", []⟩, ⟨3, "e", []⟩]] ∧
+    (run (Machine.lts ⟨flatten (conv [[⟨1, "Jump", [.int 3]⟩, ⟨2, "c", []⟩, ⟨3, "e", []⟩]])⟩) (fun _ => true) 6 0
+      (Machine.entry ⟨flatten (conv [[⟨1, "Jump", [.int 3]⟩, ⟨2, "c", []⟩, ⟨3, "e", []⟩]])⟩ 0)).1 = [.op ⟨"e", []⟩, .stop evReturn] ∧
+    (toSrc retOpProg).graph.entries = [some 3] ∧
+    (run (toSrc retOpProg).graph.lts (fun _ => true) 6 0 (3 : Nat)).1 = [.stop ⟨"Return", []⟩] := by
+  rw [retOp_graph]
+  decide +kernel
+
 end ESV.C01Frontend
